@@ -163,6 +163,18 @@ def run_shard(shard, tier, seed, acc) -> None:
             for rk in (None, UUIDS[1]):
                 for l0, l1, l2 in itertools.product((-1, 0, 31, 2**31 - 1), repeat=3):
                     chk(acc, "GetKey", [sdlen, bool(rk), l0, l1, l2], lambda sd=sd, rk=rk, l0=l0, l1=l1, l2=l2: Gm.GetKey(sd, rk, l0, l1, l2), ndr64.getkey_request(sd, rk, l0, l1, l2), Gm.GetKey.unpack)
+        # GetKey is a mutable dataclass: packing, changing a field and packing again must encode the new values
+        g = Gm.GetKey(b"abc", None, -1, -1, -1)
+        seq = [("target_sd", b"abcdefgh"), ("root_key_id", UUIDS[1]), ("l0_key_id", 361), ("l1_key_id", 0), ("l2_key_id", 31), ("target_sd", b""), ("root_key_id", None), ("l0_key_id", -1)]
+        acc.ev()
+        if bytes(g.pack()) != ndr64.getkey_request(b"abc", None, -1, -1, -1):
+            acc.violate("GetKey.repack.bytes", ["GetKey-repack", 0], {})
+        for i_, (fld, val) in enumerate(seq):
+            setattr(g, fld, val)
+            acc.ev()
+            want = ndr64.getkey_request(g.target_sd, g.root_key_id, g.l0_key_id, g.l1_key_id, g.l2_key_id)
+            if bytes(g.pack()) != want:
+                acc.violate("GetKey.repack.bytes", ["GetKey-repack", i_ + 1, fld], {"got": bytes(g.pack()).hex()[:200], "ref": want.hex()[:200]})
         for l in (-(2**31), 2**31 - 1):
             chk(acc, "GetKey", [4, True, l, l, l], lambda l=l: Gm.GetKey(b"abcd", UUIDS[2], l, l, l), ndr64.getkey_request(b"abcd", UUIDS[2], l, l, l), Gm.GetKey.unpack)
         acc.sample({"GetKey": {"sd_len": 5, "root_key_id": None, "l0,l1,l2": [-1, -1, -1]}, "bytes": ndr64.getkey_request(b"\x01\x02\x03\x04\x05", None, -1, -1, -1).hex()})
@@ -191,6 +203,35 @@ def run_shard(shard, tier, seed, acc) -> None:
                         acc.outcome("hresult-rejected")
                     except Exception as e:  # noqa: BLE001
                         acc.violate(f"GetKey.unpack_response.hresult.exc.{type(e).__name__}", ["resp-err", dl, fl, hres], {"exc": repr(e)})
+        # and through the client stack: sealed replies whose auth padding is 0, 4, 8 or 12 (reference DC, scripted context)
+        import dpapi_ng
+
+        from env import refdc, secctx, seams as _seams, transport
+        from ref import cms
+
+        _seams.block_network()
+        d_ = _seams.Drbg(("C11stack", seed))
+        rk = _seams.make_root(d_, "SHA256")
+        pads = set()
+        for dl in range(0, 12):
+            dom = "d" * dl
+            dc = refdc.DC([rk], now=(361, 10, 12), domain=dom, forest="f")
+            blob = cms.ref_encrypt(rk, "S-1-5-21-1-2-3-1104", b"c11", (361, 3, 5), cek=d_.bytes(32), gcm_nonce_=d_.bytes(12), key_nonce=d_.bytes(32), domain=dom, forest="f")
+            acc.ev()
+            acc.nt(("stack", dl))
+            with transport.network(dc), secctx.scripted_client(lambda u, p, **kw: secctx.ScriptedContext([b"C1"], 16)):
+                try:
+                    v = dpapi_ng.ncrypt_unprotect_secret(blob, server="dc", username="u", password="p", auth_protocol="ntlm")
+                    if bytes(v) != b"c11":
+                        acc.violate("reply-through-stack.value", ["stack", dl], {"got": repr(bytes(v))})
+                except Exception as e:  # noqa: BLE001
+                    acc.violate(f"reply-through-stack.exc.{type(e).__name__}", ["stack", dl], {"exc": repr(e), "pad": [e_.get("pad") for e_ in dc.transcript if e_.get("what") == "getkey_reply"]})
+            pads.update(e_["pad"] for e_ in dc.transcript if e_.get("what") == "getkey_reply")
+        acc.stat_max("reply_auth_pads_through_stack", len(pads))
+        if 0 not in pads or len(pads) < 4:
+            from mc.runner import Vacuous
+
+            raise Vacuous(f"reply auth paddings through the stack: {sorted(pads)}")
         if len(residues) < 4:
             from mc.runner import Vacuous
 
@@ -203,7 +244,15 @@ def run_shard(shard, tier, seed, acc) -> None:
 
 def replay(case, seed, acc) -> None:
     # cases are tiny and deterministic: re-run the whole family and keep only the matching key
-    fam = {"KDFParameters": ["kdfparams"], "FFCDHParameters": ["dhparams"], "FFCDHKey": ["dhkey"], "ECDHKey": ["eckey"], "KeyIdentifier": ["keyid"], "GetKey": ["getkey"], "resp": ["getkey_resp"], "resp-err": ["getkey_resp"]}
+    if case[0] in ("stack",):
+        run_shard(["getkey_resp"], "quick", seed, acc)
+        for k in list(acc.violations):
+            acc.violations[k] = [e for e in acc.violations[k] if e["case"] == case]
+            if not acc.violations[k]:
+                del acc.violations[k]
+        acc.violation_count = sum(len(v) for v in acc.violations.values())
+        return
+    fam = {"GetKey-repack": ["getkey"], "KDFParameters": ["kdfparams"], "FFCDHParameters": ["dhparams"], "FFCDHKey": ["dhkey"], "ECDHKey": ["eckey"], "KeyIdentifier": ["keyid"], "GetKey": ["getkey"], "resp": ["getkey_resp"], "resp-err": ["getkey_resp"]}
     name = case[0]
     if name == "GroupKeyEnvelope":
         for p in range(4):
